@@ -133,3 +133,20 @@ PROPS["C18"] = dict(
     assumptions=ASSUME_COMMON + ["crypto_core_ed25519_random is compared with the library's own crypto_core_ed25519_from_uniform applied to the served bytes (the map itself is C07's claim)",
                                  "bits a specification ignores (X25519 clamp bits, Ristretto top bits) are not used as perturbation positions"],
 )
+
+PROPS["C04"] = dict(
+    name="c04", sources=["props/c04.cpp"], engine="rapidcheck + enumerator", libs=["-lrapidcheck"],
+    builds=[("asan", "native"), ("asan", "noti")],
+    builds_thorough=[("asan", "native"), ("asan", "noti"), ("asan", "noasm"), ("asan", "portable")],
+    level="exploration",
+    rule=("Enumerated: every message length 0..1100 x 12 algorithms (SHA-256/512, HMAC-SHA-256/512/512-256, BLAKE2b generichash with/without salt+personal, SipHash-2-4 64/128, Poly1305, "
+          "HKDF-SHA-256/512 extract) one-shot and through init/update/final with a 4-way split, BLAKE2b and Poly1305 under every dispatch mask {all=AVX2, -avx2=SSE4.1, -sse41=SSSE3, -ssse3=ref, none=donna}; "
+          "all 64x65 (digest length, key length) pairs of BLAKE2b; 60 sampled messages up to 256 KiB. rapidcheck (seed from VERIF_SEED, shrinking): 24000 update histories - lists of 0..14 chunk sizes drawn from "
+          "block-related values {0,1,15..17,31..33,63..65,111..113,127..129,255..257} and arbitrary sizes - fed through init/update.../final for every streaming API, key lengths 0..200 for HMAC/HKDF. "
+          "Poly1305 carries: three message blocks SOLVED so that the unreduced accumulator with r=1 is exactly 2^130-5+k, 2^130+k, 2^130+2^129+k, 2^129+2^128+2^127+k (k=-6..8) x 13 r values (1, 2, r_max, 0, 2^k) x "
+          "s in {0, 2^128-1, random} x every final-block length 0..17; all-ff/all-00 messages of 0..20 blocks + 0..31 tail bytes. Verify functions: correct tag accepted, every single-bit flip of the tag rejected. "
+          "KDFs: crypto_kdf subkey_len 0..80 (x ids 0, 1, 2^64-1, random), HKDF expand out_len 0..200, sampled to 255*hashlen and +-1 around it, ctx 0..100 incl. NULL; out-of-range generichash outlen/keylen. "
+          "Oracle: ref/sha2.hpp, blake2b.hpp, poly1305.hpp (big-integer). Non-trivial = len>=1 and (>=2 non-empty chunks or keyed or non-default backend or crafted carry); distinct = (build, alg, len, key/out length, mask, chunk list)."),
+    exhaustive_axes="message lengths 0..1100; BLAKE2b (outlen, keylen) grid; tag bit positions; kdf subkey lengths",
+    assumptions=ASSUME_COMMON + ["message contents are derived from rapidcheck-/VERIF_SEED-chosen 64-bit seeds via splitmix64 so that cases shrink on structure, not on content"],
+)
